@@ -163,7 +163,7 @@ CLAIMS['C16'] = dict(
        'optima_tt_beam in their stabilised modes (d = 2,3) the scale of the returned mantissas plus the returned exponent equals '
        'the scale of the input, exactly, as linear forms in the fresh exponent symbols; log2 is guarded by the threshold test; '
        'the exponent is an integer; 2**(p1-p2) is dominated by both saturation guards; orthogonalize and mul_scalar rescale at '
-       'every step of their core loops (the core_stab calls of the abstract run are counted per step, none re-scales an orthonormal core, none sits under a test of a magnitude).',
+       'every step of their core loops (the core_stab calls of the abstract run are counted per step, none re-scales an orthonormal core, none sits under a test of a magnitude); every return path of the stabilised norm hands back the exponent of mul_scalar.',
   note='Not decided: that mantissas stay in range for thousands of dimensions, rounding, coincidence of stabilised and plain '
        'values. Ledger axioms for qr/rq/svd/eigh are trusted.')
 
